@@ -7,11 +7,12 @@ MANIFEST = {
             "explicit. Specification: a hand-written layout per node kind (own tokens and children in source order; extract/c17_layout.txt). Theorems: "
             "generic soundness of the canonical first-element / last-element bodies (canonPos_sound, canonEnd_sound: for every layout, all field values and "
             "children) + kernel-decided obligations on the regenerated bodies (C17_pos_bodies_canonical, C17_end_bodies_canonical: the Pos/End method of each of "
-            "the 64 specified kinds - all 16 XGo-specific kinds except File, 48 Go kinds - IS the canonical body of its layout; C17_layout_coverage) give "
+            "the 65 specified kinds - all 16 XGo-specific kinds except File, 49 Go kinds incl. CallExpr (paren / command / tuple form) and ChanType - IS the canonical body of its layout up to removal of redundant tests (prune_sound); C17_layout_coverage) give "
             "C17_pos_exact, C17_end_exact (Pos = start of the first element present, End = stop of the last), C17_children_within, C17_children_ordered, "
             "C17_span_nonneg. PARTIAL: that the parser stores the offsets the layout speaks of (hypothesis `ordered`, layout tokens are real tokens) and the "
             "re-parse clause are checked on the implementation only (every node of every error-free parse of the corpus, of layout-mutated and of generated "
-            "XGo files: token-boundary, bracket-balance, nesting/order, re-parse and layout oracles); 6 kinds (FieldList, CallExpr, FuncType, ValueSpec, "
+            "XGo files: token-boundary, bracket-balance, nesting/order, layout, position-field (every token.Pos field points at its reviewed token inside the span) "
+            "and re-parse (expression / type / command call / statement) oracles); 5 kinds (FieldList, FuncType, ValueSpec, "
             "GenDecl, File) have no layout and are covered by correspondence and the source oracle only.",
     "note": "trusted: Lean kernel; translator extract/spans.go (method body -> Body term; fingerprints of File.End, Ident.Implicit, litPrefix) and the hand-written "
             "semantics of File.End (Model/SpanOpaque.lean), both tied by the differential run of the real Pos()/End() of every node against the generated bodies "
